@@ -245,6 +245,59 @@ def chi_mask_slices(names):
     return out
 
 
+def theta_index_exprs(names):
+    """index expressions of the theta construction in the current source, evaluated in `names` (topology integers as SymInt, myg):
+    zero  - ylow index whose y value is subtracted (theta's zero),
+    start - first y index of the block shifted for a second divertor, A, B - ylow indices whose y difference is that shift"""
+    src = textwrap.dedent(inspect.getsource(meshm.BoutMesh.writeGridfile))
+    fn = ast.parse(src).body[0]
+    body = [n for n in fn.body if isinstance(n, ast.With)][0].body
+    loop = next(n for n in body if isinstance(n, ast.For) and "theta.centre" in ast.unparse(n.iter))
+    ylow_idx = [n.slice.elts[2] for n in ast.walk(loop) if isinstance(n, ast.Subscript) and ast.unparse(n.value) == "theta.ylow" and isinstance(n.slice, ast.Tuple)]
+    starts = [n.slice.elts[1].lower for n in ast.walk(loop) if isinstance(n, ast.Subscript) and ast.unparse(n.value) == "t" and isinstance(n.slice, ast.Tuple)
+              and isinstance(n.slice.elts[1], ast.Slice) and n.slice.elts[1].lower is not None]
+    if len(ylow_idx) != 3 or len(starts) != 1:
+        raise core.HarnessError("theta construction has an unexpected shape: %d ylow subscripts, %d shifted slices" % (len(ylow_idx), len(starts)))
+    ev = lambda e: eval(compile(ast.Expression(e), "<theta index>", "eval"), {}, dict(names))  # noqa: E731
+    # ast.walk is breadth-first: the zero subscript (depth 1 of the loop body) comes first, then the two of the difference in source order
+    order = sorted(ylow_idx, key=lambda e: (e.lineno, e.col_offset))
+    return {"zero": ev(order[0]), "A": ev(order[1]), "B": ev(order[2]), "start": ev(starts[0])}
+
+
+def ob_y_coordinate_affine(env):
+    """the y-coord construction of writeGridfile with a uniform symbolic dy: centre[k] = k*dy, ylow[k] = (k - 1/2)*dy (the model the theta
+    index claims rest on)"""
+    from symx import slices as _sl
+    from harness.common import sym_numpy, mla_mod, MultiLocationArray
+    fn, info = _sl.slice_function(meshm.BoutMesh.writeGridfile, lambda n: False, lambda n: False, ["self"], meshm.__dict__, name="unused") if False else (None, None)
+    src = textwrap.dedent(inspect.getsource(meshm.BoutMesh.writeGridfile))
+    f0 = ast.parse(src).body[0]
+    body = [n for n in f0.body if isinstance(n, ast.With)][0].body
+    i0 = next(i for i, n in enumerate(body) if isinstance(n, ast.Assign) and ast.unparse(n.targets[0]) == "y" and "MultiLocationArray" in ast.unparse(n.value))
+    i1 = next(i for i, n in enumerate(body) if i > i0 and isinstance(n, ast.Assign) and ast.unparse(n.targets[0]) == "y.attributes['bout_type']")
+    f2 = ast.FunctionDef(name="ycoord", args=ast.arguments(posonlyargs=[], args=[ast.arg("self")], kwonlyargs=[], kw_defaults=[], defaults=[]),
+                         body=body[i0:i1] + [ast.parse("return y").body[0]], decorator_list=[], returns=None, type_comment=None, type_params=[])
+    m = ast.Module(body=[f2], type_ignores=[])
+    ast.fix_missing_locations(m)
+    nx, ny = 2, 4
+    d = env.real("dy", pos=True)
+    with sym_numpy(env, mla_mod, meshm):
+        ns = dict(meshm.__dict__)
+        exec(compile(m, "<writeGridfile y-coord>", "exec"), ns)
+        dyarr = MultiLocationArray(nx, ny)
+        dyarr.centre = d
+        me = types.SimpleNamespace(nx=nx, ny=ny, dy=dyarr)
+        y = ns["ycoord"](me)
+    env.witness("built")
+    for i in range(nx):
+        for k in range(ny):
+            env.claim_eq("y_centre[k]=k*dy", y.centre[i, k], k * d)
+        for k in range(ny + 1):
+            env.claim_eq("y_ylow[k]=(k-1/2)*dy", y.ylow[i, k], (k - 0.5) * d)
+    for k in range(ny):
+        env.claim_eq("y_xlow[k]=k*dy", y.xlow[0, k], k * d)
+
+
 def zi(x):
     if isinstance(x, SymInt):
         return x.e
@@ -434,6 +487,7 @@ def _mk(kind, guards, suo=False):
                 in_core = z3.Or(in_core, z3.And(yf >= y0, yf < y1))
         names = {k: (v if env.mode != "sym" else (v if isinstance(v, SymInt) else SymInt(zi(v)))) for k, v in t.items()}
         names["myg"] = g
+        j11_, j21_, j12_, j22_, nyi_ = [zi(t[k]) for k in ("jyseps1_1", "jyseps2_1", "jyseps1_2", "jyseps2_2", "ny_inner")]
         masked = z3.BoolVal(False)
         for lo, hi in chi_mask_slices(names):
             lo_e = z3.IntVal(0) if lo is None else zi(lo)
@@ -441,6 +495,23 @@ def _mk(kind, guards, suo=False):
             masked = z3.Or(masked, z3.And(yf >= lo_e, yf < hi_e))
         if any(reg.equilibriumRegion.kind == "X.X" for reg in mesh.regions.values()):
             env.claim("chi_nan_mask_is_exactly_the_non_core_y_range", ZB(z3.Implies(z3.And(yf >= 0, yf < ny), masked == z3.Not(in_core))))
+        # (f) theta: zero at the lower face of the first core cell, increases by dy per cell round the core (continuous across the upper
+        # branch cut of a double null) and reaches ny_core*dy = 2*pi after the last core cell.  y is affine in the file index
+        # (obligation y_coordinate_affine), so these are statements about the index expressions of the current source.
+        core_regs = [reg for reg in mesh.regions.values() if reg.equilibriumRegion.kind == "X.X"]
+        if core_regs or kind == "circular_core":
+            th = {k: zi(v) for k, v in theta_index_exprs(names).items()}
+            ny_core = zi(mesh.ny_core) if hasattr(mesh, "ny_core") else None
+            if ny_core is None:
+                raise core.HarnessError("mesh.ny_core missing")
+            F = lambda yy: file_index(t, g, yy)   # noqa: E731
+            env.claim("theta_zero_at_lower_face_of_first_core_cell", ZB(th["zero"] == F(j11_ + 1)))
+            dn_kind = kind in ("cdn", "ldn", "udn")
+            shift = (th["A"] - th["B"]) if dn_kind else z3.IntVal(0)
+            if dn_kind:
+                env.claim("theta_shift_starts_at_the_outer_block_including_its_target_guard_cells", ZB(th["start"] == nyi_ + 2 * g))
+                env.claim("theta_continuous_across_the_upper_branch_cut", ZB(shift == F(j12_ + 1) - F(j21_) - 1))
+            env.claim("theta_is_ny_core*dy(=2pi)_at_the_upper_face_of_the_last_core_cell", ZB(F(j22_) + 1 - th["zero"] - shift == ny_core))
         # (without a closed-field-line region ShiftAngle is NaN everywhere and chi = 2*pi*zShift/ShiftAngle is NaN without any mask)
         # (d) ordering
         j11, j21, j12, j22, nyi = [zi(t[k]) for k in ("jyseps1_1", "jyseps2_1", "jyseps1_2", "jyseps2_2", "ny_inner")]
@@ -511,3 +582,6 @@ OBLIGATIONS.append(Ob("shared_y_edge_points_coincide", _c01._mk_rzboundary(True)
                       encodes=["hypnotoad.core.mesh:MeshRegion.getRZBoundary"], bounds="nx=1, ny=2, all coordinates symbolic"))
 OBLIGATIONS.append(Ob("global_index_map_of_output_arrays", _c01.ob_global_arrays, tier="quick", family="addFromRegions", encodes=["hypnotoad.core.mesh:BoutMesh.geometry"],
                       desc="the region_indices slices place every region value (all locations and corner variants) at its global index", bounds="2x2 block layout, all values symbolic"))
+OBLIGATIONS.append(Ob("y_coordinate_affine", ob_y_coordinate_affine, tier="quick", family="theta",
+                      desc="y-coord is affine in the file index for uniform dy: centre k*dy, lower faces (k-1/2)*dy", encodes=["hypnotoad.core.mesh:BoutMesh.writeGridfile"],
+                      bounds="nx=2, ny=4, dy symbolic"))
